@@ -478,6 +478,24 @@ pub fn c08(tier: &str) -> ! {
         }
         rep.assume("schedule part: a fault by file kind (once or sticky) during 2-3 thread programs; interleavings only at synchronisation operations and named points");
     }
+    // the log writer itself under a failing filesystem (all write / flush call indices while
+    // appending records around a block boundary)
+    {
+        let shm = std::sync::Arc::new(crate::shm::Shm::new(1 << 10, 1 << 20));
+        for lens in crate::compx::log_fault_cases() {
+            crate::compx::log_fault_case(&lens, &shm, "C08.log_ack_lost");
+        }
+        for (clause, detail, art) in crate::compx::parse_found(&shm) {
+            rep.findings.push(Finding {
+                clause,
+                detail,
+                ops: vec!["log writer under fault".to_string(), art.to_string()],
+                artefact: json!({"explorer": "compx", "kind": "log_fault", "case": art}),
+            });
+            rep.validated_findings += 1;
+        }
+        rep.cov("log_appends_under_fault", json!(shm.get(crate::shm::C_USER + 5)));
+    }
     rep.assume("a failing call has no effect on the file (fail-before semantics); one fault per execution, either that single call (once) or that call and all later ones of the counted classes (sticky)");
     rep.assume("counted call classes: create, write/append, rename, remove, open-for-read, size (thorough adds list and, for one configuration, handle reads and flush)");
     rep.assume("histories executed under the deterministic eager schedule");
